@@ -28,8 +28,14 @@ def judge(data, nl):
     bare = split(data, nl, keep_ends=False)
     bare2 = split(data, nl)
 
-    if not isinstance(keep, list) or not isinstance(bare, list):
-        return 'not-a-list', 'result types %r %r' % (type(keep), type(bare))
+    returned_lists = isinstance(keep, list) and isinstance(bare, list)
+
+    try:
+        keep_orig, bare_orig = keep, bare
+        keep, bare, bare2 = list(keep), list(bare), list(bare2)
+    except TypeError:
+        return 'not-a-sequence', 'result types %r %r' % (type(keep),
+                                                         type(bare))
 
     if b''.join(keep) != data:
         return 'lossy-join', 'join(keep_ends) = %r' % (b''.join(keep),)
@@ -68,14 +74,15 @@ def judge(data, nl):
 
     # the result belongs to the caller: scribbling over it must not change
     # what a later call with the same arguments returns
-    want_keep, want_bare = list(keep), list(bare)
-    keep[:] = [b'scribble'] * (len(keep) + 1)
-    bare[:] = [b'scribble']
+    if returned_lists:
+        want_keep, want_bare = list(keep), list(bare)
+        keep_orig[:] = [b'scribble'] * (len(keep) + 1)
+        bare_orig[:] = [b'scribble']
 
-    if split(data, nl, keep_ends=True) != want_keep or \
-            split(data, nl, keep_ends=False) != want_bare:
-        return ('result-shared-between-calls',
-                'mutating a returned list changed a later result')
+        if list(split(data, nl, keep_ends=True)) != want_keep or \
+                list(split(data, nl, keep_ends=False)) != want_bare:
+            return ('result-shared-between-calls',
+                    'mutating a returned list changed a later result')
 
     return None
 
